@@ -16,6 +16,8 @@ func init() {
 			{"C01.split", ruleC01Split, ""},
 			{"C01.addressing", ruleC01Addressing, ""},
 			{"C01.chain-links", ruleC01ChainLinks, ""},
+			{"C01.addressing-writers", ruleAddressingWriters, ""},
+			{"C01.mapping", ruleC17, ""},
 			{"C01.key-limits", ruleC16Consts, ""},
 			{"C01.scan-cursor", ruleC11Cursor, ""},
 			{"C01.kernel", ruleKernelShapes("(*pogreb.index).bucketIndex", "(*pogreb.bucket).del", "(*pogreb.slotWriter).insert", "(*pogreb.slotWriter).write", "(*pogreb.index).createOverflowBucket", "(*pogreb.bucketIterator).next", "(*pogreb.index).newBucketIterator", "(pogreb.slot).kvSize", "(*pogreb.datalog).readKey", "(*pogreb.datalog).readKeyValue"), ""},
@@ -29,6 +31,9 @@ func init() {
 	register("C06", &propDef{
 		Rules: []ruleDef{
 			{"C06.sync-reaches-fsync", ruleC06SyncReaches, ""},
+			{"C06.sync-mode", ruleSyncMode, ""},
+			{"C06.guarded", ruleGuarded, ""},
+			{"C06.sync-error-fatal", ruleSyncErrorFatal, ""},
 			{"C06.seal-sync", ruleC06SealSync, ""},
 			{"C06.older-first", ruleC03OlderFirst, ""},
 			{"C06.unlink-after-durable", ruleC06Unlink, ""},
@@ -42,6 +47,8 @@ func init() {
 	register("C09", &propDef{
 		Rules: []ruleDef{
 			{"C09.sync-before-close", ruleC09SyncBeforeClose, ""},
+			{"C09.sync-error-fatal", ruleSyncErrorFatal, ""},
+			{"C09.close-not-internal", ruleCloseNotInternal, ""},
 			{"C09.commit-last", ruleCloseOrder, ""},
 			{"C09.errs", ruleErrs, ""},
 			{"C09.meta-symmetry", ruleC02MetaSymmetry, ""},
@@ -56,6 +63,9 @@ func init() {
 		Rules: []ruleDef{
 			{"C15.name-families", ruleC15NameFamilies, ""},
 			{"C15.seal-sites", ruleSealSites, ""},
+			{"C15.backup-closes-files", ruleBackupClosesFiles, ""},
+			{"C15.segment-id-scan", ruleSegmentIDScan, ""},
+			{"C15.remove-only-compaction", ruleRemoveSegmentOnlyCompaction, ""},
 			{"C15.forget-unlink-atomic", ruleForgetUnlinkAtomic, ""},
 			{"C15.curseg-live", ruleC15CurSegLive, ""},
 			{"C15.remove-order", ruleC15RemoveOrder, ""},
@@ -70,6 +80,8 @@ func init() {
 			{"C04.size-mirror", ruleC04SizeMirror, ""},
 			{"C04.unlock-owner", ruleCloseOrder, ""},
 			{"C04.open-order", ruleOpenOrder, ""},
+			{"C04.close-not-internal", ruleCloseNotInternal, ""},
+			{"C04.remove-only-compaction", ruleRemoveSegmentOnlyCompaction, ""},
 			{"C04.older-first", ruleC03OlderFirst, ""},
 			{"C04.tail-handling", ruleC08Gates, ""},
 			{"C04.segment-end", ruleC03CompactComplete, ""},
@@ -89,6 +101,8 @@ func init() {
 			{"C19.alloc-bound", ruleC19AllocBound, ""},
 			{"C19.tail-handling", ruleC08Gates, ""},
 			{"C19.segment-end", ruleC03CompactComplete, ""},
+			{"C19.remove-only-compaction", ruleRemoveSegmentOnlyCompaction, ""},
+			{"C19.logger-non-nil", ruleLoggerNonNil, ""},
 		},
 		Explanation: "Decides with a forward value-flow (taint) analysis over every function reachable from recovery and segment iteration: no make/Grow/CopyN is sized by a value decoded from file bytes (binary.LittleEndian.UintN and arithmetic on it) unless the allocation is control dependent on a comparison 'tainted <= untainted bound' (the file length or a constant). NOT decided: total work/time of recovery; allocations inside encoding/gob (metadata is discarded by recovery).",
 		Assumptions: commonAssumptions,
@@ -153,6 +167,8 @@ func init() {
 			{"C05.older-first", ruleC03OlderFirst, ""},
 			{"C05.chain-exit", ruleC01ChainExit, ""},
 			{"C05.guarded", ruleGuarded, ""},
+			{"C05.remove-only-compaction", ruleRemoveSegmentOnlyCompaction, ""},
+			{"C05.seal-sites", ruleSealSites, ""},
 			{"C05.no-retained-locations", ruleNoRetainedLocations, "primary"},
 			{"C05.balanced", ruleBalanced, ""},
 			{"C05.sequence-monotonic", ruleC03SequenceMonotonic, ""},
@@ -167,6 +183,8 @@ func init() {
 		Rules: []ruleDef{
 			{"C03.lock-brackets", ruleCloseOrder, ""},
 			{"C03.open-order", ruleOpenOrder, ""},
+			{"C03.close-not-internal", ruleCloseNotInternal, ""},
+			{"C03.remove-only-compaction", ruleRemoveSegmentOnlyCompaction, ""},
 			{"C03.single-write", ruleC03SingleWrite, ""},
 			{"C03.compact-complete", ruleC03CompactComplete, ""},
 			{"C03.copy-before-repoint", ruleC05Liveness, ""},
@@ -190,6 +208,7 @@ func init() {
 			{"C11.cursor", ruleC11Cursor, ""},
 			{"C11.chain-drain", ruleC11Drain, ""},
 			{"C11.split-forward", ruleC01Split, ""},
+			{"C11.addressing-writers", ruleAddressingWriters, ""},
 			{"C11.copied", ruleC14NoAliasOut, ""},
 			{"C11.fs-readers-pure", ruleFSReadersPure, ""},
 			{"C11.no-retained-locations", ruleNoRetainedLocations, "primary"},
@@ -215,6 +234,7 @@ func init() {
 		Rules: []ruleDef{
 			{"C08.layout", ruleRecordLayout, ""},
 			{"C08.gates", ruleC08Gates, ""},
+			{"C08.logger-non-nil", ruleLoggerNonNil, ""},
 			{"C08.compact-complete", ruleC03CompactComplete, ""},
 			{"C08.size-mirror", ruleC04SizeMirror, ""},
 			{"C08.alloc-bound", ruleC19AllocBound, ""},
@@ -250,6 +270,7 @@ func init() {
 			{"C02.close-persists", ruleCloseOrder, ""},
 			{"C02.sync-before-close", ruleC09SyncBeforeClose, ""},
 			{"C02.open-order", ruleOpenOrder, ""},
+			{"C02.close-not-internal", ruleCloseNotInternal, ""},
 			{"C02.errs", ruleErrs, ""},
 			{"C02.swap-never-sealed", ruleC05SwapNeverSealed, ""},
 			{"C02.mapping", ruleC17, ""},
@@ -266,6 +287,7 @@ func init() {
 			{"C13.lock-revalidate", ruleC13Lock, ""},
 			{"C13.mem-lock", ruleC13Mem, ""},
 			{"C13.open-order", ruleOpenOrder, ""},
+			{"C13.close-not-internal", ruleCloseNotInternal, ""},
 			{"C13.unlock-owner", ruleCloseOrder, ""},
 		},
 		Explanation: "Decides for the unix lock implementation (the one that can be built and reasoned about here; windows/plan9 are listed as not decided): success is returned only after a successful exclusive non-blocking flock on the descriptor opened here AND a re-validation, made after the flock, that the path still names the locked inode (os.SameFile of fstat and stat); Unlock unlinks the path before closing (the order the re-validation relies on); the in-memory lock refuses a held lock; Open takes the lock before any other file-system call, touches nothing when the lock is not acquired, recovers iff the lock file pre-existed; only a completed Close releases the lock. These forbid the known path/inode windows; they do NOT prove mutual exclusion under all interleavings, and the 'already existed' flag (stat before create) is reported as advisory only.",
@@ -289,6 +311,8 @@ func init() {
 	register("C17", &propDef{
 		Rules: []ruleDef{
 			{"C17", ruleC17, ""},
+			{"C17.sub-paths", ruleSubPaths, ""},
+			{"C17.backup", ruleC12, ""},
 			{"C17.size-mirror", ruleC04SizeMirror, ""},
 			{"C17.fs-readers-pure", ruleFSReadersPure, ""},
 			{"C17.no-alias-out", ruleC14NoAliasOut, ""},
